@@ -180,3 +180,65 @@ M("C11", "reconnect-error-swallowed", "ledger/protocol.py",
 M("C11", "timeout-flags-comm-issue-advance-exc", "ledger/protocol.py",
   "        except HSM2DongleCommError:\n            # Signal a communication problem and return a device error\n            self._comm_issue = True\n            self.logger.error(\"Dongle communication error in update ancestor\")\n            return (self.ERROR_CODE_DEVICE,)",
   "        except HSM2DongleCommError:\n            # Signal a communication problem and return a device error\n            self.logger.error(\"Dongle communication error in update ancestor\")\n            return (self.ERROR_CODE_DEVICE,)")
+
+# ---- C09
+M("C09", "min-retries-1", "ledger/protocol.py",
+  "    MIN_AVAILABLE_RETRIES = 2", "    MIN_AVAILABLE_RETRIES = 1")
+M("C09", "retries-lte", "ledger/protocol.py",
+  "            if retries < self.MIN_AVAILABLE_RETRIES:",
+  "            if retries <= self.MIN_AVAILABLE_RETRIES:")
+M("C09", "echo-check-removed", "ledger/protocol.py",
+  "        if not self.hsm2dongle.echo():\n            self._error(\"Echo error\")",
+  "        if not self.hsm2dongle.echo():\n            self.logger.error(\"Echo error\")")
+M("C09", "version-minor-only", "ledger/version.py",
+  "            and (\n                self.minor > running_version.minor or self.patch >= running_version.patch\n            )",
+  "")
+M("C09", "version-major-ge", "ledger/version.py",
+  "            self.major == running_version.major",
+  "            self.major >= running_version.major")
+M("C09", "continue-after-pin-change", "ledger/protocol.py",
+  "            finally:\n                raise HSM2ProtocolInterrupt()",
+  "            finally:\n                pass")
+M("C09", "unlock-before-retries-check", "ledger/protocol.py",
+  "        try:\n            self.logger.info(\"Retrieving available pin retries\")",
+  "        self.hsm2dongle.unlock(self.pin.get_pin())\n        try:\n            self.logger.info(\"Retrieving available pin retries\")")
+M("C09", "onboard-check-skipped-when-signer", "ledger/protocol.py",
+  "            if not is_onboarded:\n                self.logger.error(\"Dongle not onboarded, exiting\")",
+  "            if not is_onboarded and self.hsm2dongle.get_current_mode() != HSM2Dongle.MODE.SIGNER:\n                self.logger.error(\"Dongle not onboarded, exiting\")")
+M("C09", "app-version-check-ui-constant-swapped", "ledger/protocol.py",
+  "    APP_VERSION = HSM2FirmwareVersion(5, 4, 1)",
+  "    APP_VERSION = HSM2FirmwareVersion(5, 5, 1)")
+M("C09", "unknown-mode-treated-as-signer", "ledger/protocol.py",
+  "        if current_mode != HSM2Dongle.MODE.SIGNER:\n            self.logger.info(\n                \"Dongle mode unknown.",
+  "        if current_mode not in (HSM2Dongle.MODE.SIGNER, HSM2Dongle.MODE.UNKNOWN):\n            self.logger.info(\n                \"Dongle mode unknown.")
+M("C09", "retry-unlock-on-mismatch", "ledger/protocol.py",
+  "        if not self.hsm2dongle.unlock(self.pin.get_pin()):\n            self._error(\"Unable to unlock: PIN mismatch\")",
+  "        if not self.hsm2dongle.unlock(self.pin.get_pin()) and \\\n                not self.hsm2dongle.unlock(self.pin.get_pin()):\n            self._error(\"Unable to unlock: PIN mismatch\")")
+
+# ---- C10
+M("C10", "commit-before-new-pin", "ledger/protocol.py",
+  "                if not self.hsm2dongle.new_pin(self.pin.get_new_pin()):\n                    raise Exception(\"Dongle reported fail to change pin. Pin invalid?\")\n                self.pin.commit_change()",
+  "                newpin = self.pin.get_new_pin()\n                self.pin.commit_change()\n                if not self.hsm2dongle.new_pin(newpin):\n                    raise Exception(\"Dongle reported fail to change pin. Pin invalid?\")")
+M("C10", "abort-writes-file", "ledger/pin.py",
+  "        self._new_pin = None\n        self._changing = False\n\n        self.logger.info(\"PIN change aborted\")",
+  "        with open(self._path, \"wb\") as file:\n            file.write(self._new_pin)\n        self._new_pin = None\n        self._changing = False\n\n        self.logger.info(\"PIN change aborted\")")
+M("C10", "generator-no-letter-requirement", "ledger/pin.py",
+  "        while pin is None or not cls.is_valid(pin.encode()):",
+  "        while pin is None or not cls.is_valid(pin.encode(), any_pin=True):")
+M("C10", "continue-after-change", "ledger/protocol.py",
+  "            finally:\n                raise HSM2ProtocolInterrupt()",
+  "            finally:\n                self.logger.info(\"done\")")
+M("C10", "commit-writes-old-pin", "ledger/pin.py",
+  "                file.write(self._new_pin)\n        except Exception as e:",
+  "                file.write(self._pin)\n        except Exception as e:")
+M("C10", "refusal-ignored", "ledger/hsm2dongle.py",
+  "            if e.error_code == self.ERR.UI.INVALID_PIN:\n                return False",
+  "            if e.error_code == self.ERR.UI.INVALID_PIN:\n                return True")
+M("C10", "sgx-result-any-nonzero-ok", "sgx/hsm2dongle.py",
+  "        return response[2] == 1", "        return response[2] != 0")
+M("C10", "generator-extra-char-class", "ledger/pin.py",
+  "    POSSIBLE_CHARS = string.ascii_letters + string.digits\n",
+  "    POSSIBLE_CHARS = string.ascii_letters + string.digits + \"_\"\n")
+M("C10", "abort-swallows-and-commits-later", "ledger/protocol.py",
+  "            except Exception as e:\n                self.pin.abort_change()",
+  "            except Exception as e:\n                self.pin.commit_change()")
